@@ -114,6 +114,12 @@ def run(ck):
     for src in ("if true { return 1 }", "for { return }", "for x in [1] { if x { return x } }", "x := 1\nif x { return }\nx = 2", "if true { break }", "if true { continue }",
                 "f := func() { for { g := func() { break } } }", "for { f := func() { continue }; break }"):
         extra.append({"src": src + "\n", "tag": "must-not-compile", "valid": False})
+    # the same builtin module imported more than once, after constants that are merged (constant references are renumbered)
+    for src in ("a := 7\nb := 7\nm1 := import(\"math\")\nm2 := import(\"math\")\nr := m1.abs(-a) + m2.abs(-b)",
+                "s1 := \"k\"\ns2 := \"k\"\nt1 := import(\"text\")\nf := func() { return import(\"text\") }\nt2 := f()\nr := t1.trim_space(s1 + s2) + t2.trim_space(\" x \")",
+                "x := 1.5\ny := 1.5\nm := import(\"math\")\ne := import(\"enum\")\nm2 := import(\"math\")\ne2 := import(\"enum\")\nr := [m.pi == m2.pi, len(e.map([x, y], func(k, v) { return v })), len(e2.map([y], func(k, v) { return v }))]",
+                "c := 'a'\nd := 'a'\nq := [1, 1, 2, 2]\nfor i := 0; i < 2; i++ { t := import(\"times\"); u := import(\"times\"); q[i] = t.second == u.second }\nm := import(\"math\")\nr := m.abs(-3)"):
+        extra.append({"src": src + "\n", "tag": "builtin-module-twice", "valid": True, "stdlib": True})
     for i, e in enumerate(extra):
         e.update({"id": i + 1, "inputs": [], "mods": []})
     ed = vlib.run_cases(ck, "dump", extra, nproc=4)
@@ -131,14 +137,14 @@ def run(ck):
     for (pid, cidx), v in ev.items():
         if not v["ok"]:
             ck.violation("wf:" + v["why"], "function const %d is ill-formed at offset %d: %s\n%s" % (cidx, v["at"], v["why"], extra[pid - 1]["src"]), {"program": extra[pid - 1]})
-    ep = vlib.run_cases(ck, "probe", [{"id": e["id"], "src": e["src"], "inputs": [], "mods": [],
+    ep = vlib.run_cases(ck, "probe", [{"id": e["id"], "src": e["src"], "inputs": [], "mods": [], "stdlib": e.get("stdlib", False),
                                         "heights": [{"cidx": c, "h": v["h"]} for (pid, c), v in ev.items() if pid == e["id"] and v["ok"]]} for e in extra if e["id"] in edumps], nproc=4)
     for e in extra:
         r = ep.get(e["id"])
         if r is None:
             continue
         if r.get("mismatches") or r.get("hang") or r.get("died") or r.get("panic") or r.get("err"):
-            ck.violation("height:copied-function", "a function value obtained through copy() does not run on the stack shape of its code: %s\n%s" % (
+            ck.violation("height:" + e["tag"], "a program of the extra set (%s) does not run on the stack shape of its code: %s\n%s" % (e["tag"],
                 json.dumps(r.get("mismatches") or r.get("err") or r)[:300], e["src"]), {"program": e, "real": r})
         else:
             ck.traces += 1
